@@ -109,6 +109,22 @@ func judgeBatch(cs *BatchCase, o *BatchObs) []scen.Finding {
 			}
 		}
 	}
+	// a non-error slot of an item that was executed is the outcome of a successful attempt (or a rescuing fallback) of
+	// that item: an item whose every recorded attempt failed cannot have a success in its slot
+	if o.PostCalls > 0 && !cs.Lean && !(cs.ErrResult && cs.ExecStyle == "result") {
+		okSeen := make([]bool, n)
+		for _, e := range o.Events {
+			if (e.Kind == "exec-ret" || e.Kind == "fallback") && e.OK && e.Item >= 0 && e.Item < n {
+				okSeen[e.Item] = true
+			}
+		}
+		for i, s := range o.Slots {
+			if i < n && !s.IsError && i < len(o.Attempts) && o.Attempts[i] > 0 && !okSeen[i] {
+				add("C06", "slot-success-without-success:"+cc, "result %d is a success (value nil=%v), but no attempt of item %d and no fallback ever returned a success (%d attempts were made, each failed): the slot is not the outcome of processing that item", i, s.ValNil, i, o.Attempts[i])
+				break
+			}
+		}
+	}
 	// ---------------------------------------------------------------- C09(d): a slot is a real outcome or an error (any mode, cancelled or not)
 	for i, s := range o.Slots {
 		if i >= n || s.IsError {
@@ -275,7 +291,7 @@ func judgeBatch(cs *BatchCase, o *BatchObs) []scen.Finding {
 				}
 			}
 		}
-		if cs.Gated && !cancelled && !cs.Stop && cs.WaitMs == 0 && !cs.WaitHour {
+		if cs.Gated && !cancelled && !cs.Stop && cs.WaitMs == 0 && cs.WaitNs == 0 && !cs.WaitHour {
 			for pi, p := range o.Points {
 				if p.PostCalls > 0 {
 					continue
@@ -339,6 +355,17 @@ func judgeBatch(cs *BatchCase, o *BatchObs) []scen.Finding {
 			add("C11", "success-without-post", "cancelled batch returned success but post was called %d times", o.PostCalls)
 		}
 		sc := o.CancelSeq
+		if cs.Cancel.Kind == "real-deadline" {
+			sc = -1 // the expiry is not tied to a callback: nothing is decided on event positions
+		}
+		if cs.WaitHour {
+			for _, e := range o.Events {
+				if e.Kind == "exec-start" && e.Attempt > 1 {
+					add("C11", "retry-attempt-despite-hour-wait:"+cc, "the retry wait is one hour and the context was cancelled (%s); attempt %d of item %d was started nevertheless (context already done at its start: %v) — no new retry attempt may be made", cs.Cancel.Kind, e.Attempt, e.Item, e.CtxDone)
+					break
+				}
+			}
+		}
 		if pre {
 			sc = -1
 			for _, e := range o.Events {
